@@ -44,6 +44,7 @@ def determinism(n, workers_a, workers_b, fresh_n):
         b, _ = _digests(prop, range(n), workers_b, "77")
         mism = [i for i in range(n) if a.get(i) != b.get(i)
                 and "env_crash" not in (a.get(i, ("", ))[0], b.get(i, ("", ))[0])
+                and "env_hang" not in (a.get(i, ("", ))[0], b.get(i, ("", ))[0])
                 and "harness_timeout" not in (a.get(i, ("", ))[0], b.get(i, ("", ))[0])]
         st = {}
         for v in a.values():
